@@ -291,6 +291,8 @@ def work(job: Tuple[Case, List[Cfg], Tuple[str, ...]]) -> Dict[str, Any]:
     case, cfgs, ops = job
     res = new_result(case)
     res["configs"] = [c.name() for c in cfgs]
+    if "noc" in case.tags:
+        return res
     rng = random.Random(seed() * 104729 + hash(case.name) % 99991)
     t00 = time.time()
     with Scratch() as sc:
